@@ -12,6 +12,10 @@ def _guard(g):
 def _val(v):
     if callable(v):
         return "<callable>"
+    if isinstance(v, dict):
+        return {str(k): _val(x) for k, x in v.items()}
+    if isinstance(v, (list, tuple)):
+        return [_val(x) for x in v]
     try:
         json.dumps(v)
         return v
